@@ -716,6 +716,11 @@ func BackSlice(v ssa.Value, o SliceOpts) map[ssa.Value]bool {
 						visit(rv)
 					}
 				}
+				// an aggregate result built field by field in a (named-result) local has no whole-value store to
+				// normalise to: the local itself is what the result derives from
+				if _, isStruct := ret.Results[i].Type().Underlying().(*types.Struct); isStruct {
+					visit(ret.Results[i])
+				}
 			}
 		}
 	}
@@ -1059,7 +1064,9 @@ func SameLoad(a, b ssa.Value) bool {
 	}
 	// plain loads of one and the same variable (a local, or a variable captured by a closure)
 	switch ra.(type) {
-	case *ssa.FreeVar, *ssa.Alloc:
+	case *ssa.FreeVar, *ssa.Alloc, *ssa.Parameter:
+		// (a pointer parameter: the variable of the caller the callee was handed - the closure's captured variable
+		// after the closure became a method or function)
 		return true
 	}
 	return false
